@@ -8,6 +8,9 @@ import VerifModel.Base.Tr
 namespace VerifModel.Vec
 open VerifModel
 
+/-- embed a list of rationals as a vector of finite values -/
+def ofRats (xs : List Rat) : Vec := List.map XR.fin xs
+
 def mapX (f : XR → XR) (v : Vec) : Vec := List.map f v
 def neg (v : Vec) : Vec := List.map XR.neg v
 def abs (v : Vec) : Vec := List.map XR.abs v
